@@ -30,7 +30,8 @@ EXTENDS Integers, Sequences, FiniteSets, TLC, Json, SequencesExt, LockObs
 CONSTANTS N, MaxTime, MaxSkew, Budget, Variant, Faults, MaxToggle, Removal, Remotes, MaxWaits, HistMax, Emit,
           MaxAtt,    \* attempts of newLock per Lock() call that the model follows (>= 2)
           Crashes,   \* BOOLEAN: processes may die at any point
-          StartBy    \* processes start (in order 1, 2, ...) at times <= StartBy
+          StartBy,   \* processes start (in order 1, 2, ...) at times <= StartBy
+          HealOdds   \* schedule generation: a fault ends with probability 1/HealOdds per step
 
 VARIABLES now, files, pr, skewU, toggles, waits, hist, emitted
 vars == <<now, files, pr, skewU, toggles, waits, hist, emitted>>
@@ -273,7 +274,7 @@ Fail(p, k) ==
   /\ UNCHANGED <<now, files, skewU, waits, emitted>>
 
 Heal(p) ==
-  /\ pr[p].down # {} /\ Rare(3)
+  /\ pr[p].down # {} /\ Rare(HealOdds)
   /\ pr' = [pr EXCEPT ![p].down = {}]
   /\ Rec(H("heal", p, FALSE, ""))
   /\ UNCHANGED <<now, files, skewU, toggles, waits, emitted>>
